@@ -86,8 +86,8 @@ func (s c08State) step(e c08Event) (c08State, bool) {
 		n.buf[f] = e.v
 		n.touched[f] = true
 	case "save":
-		if s.buf[f] < 0 || !s.unsaved(f) {
-			return s, false
+		if s.buf[f] < 0 || !(s.unsaved(f) || s.touched[f]) {
+			return s, false // the editor only saves a dirty document (possibly with bytes identical to the disk)
 		}
 		n.disk[f] = s.buf[f]
 		n.touched[f] = false
@@ -414,7 +414,7 @@ func init() {
 				for _, in := range inits {
 					sp = append(sp, c08Space(in, 1, 6), c08Space(in, 2, 6), c08Space(in, 3, 6))
 				}
-				sp = append(sp, c08Space(inits[1], 4, 3))
+				sp = append(sp, c08Space(inits[1], 4, 3), c08Space(inits[2], 4, 3))
 			}
 			return sp
 		},
